@@ -376,6 +376,9 @@ func qPrioLock(id int, prio int) *Lock {
 	if prio > 0 {
 		cmd.TimeoutFlag = protocol.TIMEOUT_FLAG_RCOUNT_IS_PRIORITY
 		cmd.Rcount = uint8(prio)
+	} else if prio < 0 {
+		// an ordinary re-entrant request: Rcount is a depth limit, not a priority (the flag is absent): priority 0
+		cmd.Rcount = uint8(-prio)
 	}
 	return &Lock{command: cmd, locked: 0, refCount: 100, ackCount: 0xff}
 }
@@ -817,7 +820,7 @@ func runWaitCase(c *qCase) (qInfo, error) {
 
 func genWaitCase(t *rapid.T) *qCase {
 	c := &qCase{Kind: "Wait"}
-	prioPool := rapid.SliceOfN(rapid.SampledFrom([]int{0, 0, 0, 1, 1, 2, 5, 9, 200, 255}), 1, 4).Draw(t, "prioPool")
+	prioPool := rapid.SliceOfN(rapid.SampledFrom([]int{0, 0, 0, 1, 1, 2, 5, 9, 200, 255, -1, -3, -9}), 1, 4).Draw(t, "prioPool")
 	big := rapid.IntRange(0, 9).Draw(t, "big") == 0
 	segs := rapid.IntRange(1, 10).Draw(t, "segments")
 	for s := 0; s < segs; s++ {
